@@ -84,9 +84,18 @@ def ref_leaf(v, ms):
     return repr(v)
 
 
+def norm(s: str) -> str:
+    """', ' and ',' are the same separator; a trailing comma before a closing bracket is layout, not content
+    (the expanded form of a one-element tuple ends in '),' even as the last item)."""
+    s = s.replace(", ", ",")
+    for close in ")]}":
+        s = s.replace("," + close, close)
+    return s
+
+
 def flatten(s: str) -> str:
-    """Undo the layout: join the lines without their indentation; normalise ', ' to ','."""
-    return "".join(line.strip() for line in s.split("\n")).replace(", ", ",")
+    """Undo the layout: join the lines without their indentation."""
+    return norm("".join(line.strip() for line in s.split("\n")))
 
 
 def layout_ok(s: str, w: int, ind: int, v) -> bool:
@@ -148,7 +157,7 @@ def _mk_layout(lo, hi, tiers, timeout):
         ea = bool(e.mkbool("expand_all"))
         s = pretty_repr(v, max_width=w, indent_size=ind, expand_all=ea)
         one = ref_repr(v)
-        if flatten(s) != one.replace(", ", ","):
+        if flatten(s) != norm(one):
             return False
         if type(v) is not defaultdict and not any(type(x) is defaultdict for x in _walk(v)):
             back = _try_eval(s)
@@ -198,7 +207,7 @@ def c16_abbrev(e):
     want = ref_repr(v, ml, ms)
     if w == 200 and cell_len(want) <= w and s != want:
         return False
-    return flatten(s) == want.replace(", ", ",")
+    return flatten(s) == norm(want)
 
 
 @symx("C16-cycles", timeout=300, kind="C+S", functions=F_P,
@@ -228,4 +237,4 @@ def c16_cycles(e):
         v = a
         want = "[1, [2, ...]]"
     s = pretty_repr(v, max_width=w, expand_all=ea)
-    return flatten(s) == want.replace(", ", ",")
+    return flatten(s) == norm(want)
